@@ -62,6 +62,9 @@ def is_trusted_expansion(body):
 
 def classify_call(c):
     p = c.rpath or ""
+    # `slice.into()` / `<&GenericArray>::from(slice)` through the blanket Into impl: panics when the length differs
+    if re.search(r"(Into<U>>::into|convert::Into::into|From<.*>>::from)$", p) and "GenericArray<" in (c.gargs or "") and re.match(r"^\[&('\{erased\} )?(mut )?\[", c.gargs or ""):
+        return "GenericArray::from(&[T])"
     for r, name in CATALOGUE:
         m = r.match(p)
         if m:
